@@ -160,6 +160,7 @@ def run(res, f, tier):
         res.violation("C19|parser-recursion|%s" % pc[0], "the generated LR parser must be table-driven (heap stack) but is recursive through %s" % pc[:4])
     samples = []
     guarded = 0
+    cycle_keys = []
     for c, local, drops in relevant:
         if local:
             h = hashlib.sha1(",".join(local).encode()).hexdigest()[:8]
@@ -178,9 +179,42 @@ def run(res, f, tier):
             still = [x for x in sccs_of(len(keep), sub) if len(x) > 1 or x[0] in sub[x[0]]]
             if not still:
                 guarded += 1
+                cycle_keys.append((c, local, drops, key, True))
                 continue
+        cycle_keys.append((c, local, drops, key, False))
         res.violation(key, what, {"members": [nodes[i]["s"][:160] for i in c][:12], "size": len(c)})
         samples.append({"cycle": key, "size": len(c), "members": [nodes[i]["s"][:120] for i in c][:4]})
+    # ---- which of the property's entry operations reach an unguarded cycle (parse and evaluate are not cycles
+    # themselves; print / clone / compare / debug / drop are, and are reported above)
+    adjk = {}
+    for a, b, k in m["edges"]:
+        adjk.setdefault(a, []).append(b)
+    idx = {}
+    for i, nd in enumerate(nodes):
+        idx.setdefault(nd["path"], []).append(i)
+    OPS = {
+        "parse": [p for p in idx if p.endswith("::parse") and ("impl expr::Expr" in p or "impl ruleset::rule::Rule" in p)],
+    }   # evaluation is itself an unguarded cycle (reported above); everything it reaches is dominated by that finding
+    reach_rows = []
+    for op, roots in sorted(OPS.items()):
+        if not roots:
+            raise Inconclusive("entry operation %s missing from the instance graph" % op)
+        seen = set()
+        todo = [i for p in roots for i in idx[p]]
+        while todo:
+            x = todo.pop()
+            if x in seen:
+                continue
+            seen.add(x)
+            todo += adjk.get(x, [])
+        for c, local, drops, key, isguarded in cycle_keys:
+            if isguarded:
+                continue
+            if any(i in seen for i in c):
+                short = key.split("|", 2)[2].split("#")[0]
+                rk = "C19|reach|%s|%s" % (op, short)
+                res.violation(rk, "%s can run into the unbounded recursion %s (so a deep enough input aborts the process during %s)" % (op, short, op))
+                reach_rows.append(rk)
     res.floor("recursion cycles over the tree types", len(relevant), 8)
     import control
     controls = control.recursion_controls()
@@ -190,7 +224,7 @@ def run(res, f, tier):
                        "vtable methods of unsizing casts, drop glue; upstream MIR followed where rustc has it) — %d cyclic components, %d of them recurse over Expr/Value; "
                        "each must contain a depth test dominating every recursive call" % (n, len(m["edges"]), len(cycles), len(relevant)),
         "instances": n, "edges": len(m["edges"]), "cyclic_components": len(cycles), "tree_recursion_cycles": len(relevant), "guarded": guarded,
-        "parser_cycles": len(parser_cycles),
+        "parser_cycles": len(parser_cycles), "operations_reaching_unguarded_cycles": reach_rows,
         "rule": "no unguarded call cycle whose depth follows the tree; no cycle through the generated parser's reduce/action functions",
         "samples": samples[:14],
         "exhaustive": True,
